@@ -63,13 +63,29 @@ def run(tier):
     for alg in ("sha3_256", "keccak_256", "blake2b_256", "blake2b_512"):
         for n in ([0, 1, 135, 136, 137] if alg in ("sha3_256", "keccak_256") else [0, 1, 127, 128, 129]) if not q else [0, rng.choice([135, 136, 127, 128]), 33]:
             scen.append({"alg": alg, "msg": rmsg(n)})
+    # sponge sessions (TLC-generated operation sequences), off-circuit and in-circuit
+    sp = vlib.run_tlc("MC_Sponge.tla", f"MC_Sponge_{tier}.cfg", "C07", workers=4, timeout=1800)
+    vlib.require_tlc_ok(sp, "MC_Sponge")
+    sess = {json.dumps(x["ops"]): x for x in vlib.parse_replay_lines(sp["out"])}
+    sess = [sess[k] for k in sorted(sess)]
+    special = [x for x in sess if x["empty_absorb_after_squeeze"]]
+    others = [x for x in sess if not x["empty_absorb_after_squeeze"]]
+    chosen = (rng.sample(special, min(len(special), 12)) + rng.sample(others, min(len(others), 24))) if q else sess
+    for x in chosen:
+        ops = [["squeeze"] if o < 0 else ["absorb", [nat(rng.randrange(1 << 254)) for _ in range(o)]] for o in x["ops"]]
+        scen.append({"alg": "sponge", "len": -1, "ops": ops})
+    for n in ([0, 1, 2, 3, 5] if q else range(0, 9)):
+        xs = [nat(rng.randrange(1 << 254)) for _ in range(n)]
+        cut = rng.randrange(0, n + 1)
+        scen.append({"alg": "sponge", "len": n, "ops": [["absorb", xs[:cut]], ["absorb", xs[cut:]], ["squeeze"]]})
+    log(f"[C07] MC_Sponge: {len(sess)} sessions enumerated ({len(special)} with an empty absorb right after a squeeze)")
     # tamper plans
     for s in scen:
         if s["alg"] in ("sha256", "poseidon", "sha256_varlen") and rng.random() < (0.25 if q else 0.6):
             s.update({"faults": ["plus1", "zero"] if q else ["plus1", "minus1", "zero", "pow2_16", "random"],
                       "max_index": 12 if q else 80, "spread": True, "offset": rng.randrange(0, 5000)})
     log(f"[C07] {len(scen)} scenarios ({sum(1 for s in scen if 'faults' in s)} with tamper plans)")
-    cost = lambda s: (3 if s["alg"] == "sha256_varlen" else 1) * (1 + len(s.get("msg", [])) // 64) * (1 + s.get("max_index", 0) * len(s.get("faults", [])))
+    cost = lambda s: (3 if s["alg"] == "sha256_varlen" else 1) * (1 + len(s.get("msg") or []) // 64) * (1 + s.get("max_index", 0) * len(s.get("faults", [])))
     scen.sort(key=lambda s: -cost(s))
     chunks = [scen[i::vlib.NCPU] for i in range(vlib.NCPU)]
     jobs = []
@@ -86,14 +102,14 @@ def run(tier):
             if r["ev"] == "Op" and r.get("inputs") is None:
                 r["inputs"] = []
         row_sets.append(rows)
-    evs = [r for rows in row_sets for r in rows if r["ev"] in ("Op", "PoseidonCpu")]
+    evs = [r for rows in row_sets for r in rows if r["ev"] in ("Op", "PoseidonCpu", "Sponge")]
     good, rejected = [], []
     from concurrent.futures import ThreadPoolExecutor
 
     def one(i_rows):
         i, rows = i_rows
         head = [r for r in rows if r["ev"] in ("header", "PoseidonConstants")]
-        body = [r for r in rows if r["ev"] in ("Op", "PoseidonCpu")]
+        body = [r for r in rows if r["ev"] in ("Op", "PoseidonCpu", "Sponge")]
         g, rj = [], []
         remaining = list(body)
         for _ in range(10):
@@ -110,6 +126,12 @@ def run(tier):
             good += g
             rejected += rj
     for e in rejected:
+        if e["ev"] == "Sponge":
+            shape = [("s" if o[0] == "squeeze" else f"a{len(o[1])}") for o in e["ops"]]
+            rep.violation({"alg": "sponge", "impl": e["impl"], "len": e["len"], "status": e["status"]},
+                          f"Poseidon sponge ({e['impl']}) session {shape} len={e['len']}: outputs differ from the state machine (status {e['status']})",
+                          {"scenario": {"alg": "sponge", "len": e["len"], "ops": e["ops"]}})
+            continue
         if e["ev"] == "PoseidonCpu":
             rep.violation({"alg": "poseidon_cpu", "n": len(e["inputs"])}, f"off-circuit Poseidon on {len(e['inputs'])} inputs differs from the definition",
                           {"scenario": {"alg": "poseidon_cpu", "inputs": e["inputs"]}})
@@ -132,6 +154,7 @@ def run(tier):
     rep.coverage.update({
         "states": mc["distinct"], "transitions": mc["generated"],
         "traces_validated_against_impl": len(good),
+        "sponge_sessions": sum(1 for e in evs if e["ev"] == "Sponge"),
         "runs": len(ops), "tamper_runs": sum(1 for e in ops if e.get("tamper")),
         "tampered_but_satisfiable": sum(1 for e in ops if e.get("tamper") and e["status"] == "sat"),
         "by_alg_kind_status": {"/".join(k): v for k, v in sorted(by.items())},
